@@ -232,7 +232,12 @@ HoomdCase == [t |-> kind, nd |-> par, frames |-> inp.frames, dcd |-> inp.dcd,
               exp |-> GsdResult(inp.frames, inp.dcd, par, inp.withdcd)]
 
 \* ===================================================================== log
-ColSets == << <<"Step", "Temp">>, <<"Step", "Temp", "E_pair", "Press">> >>
+ColSets == << <<"Step", "Temp">>, <<"Step", "Temp", "E_pair", "Press">>,
+              <<"Step", "Press">>, <<"Step", "KinEng", "E_pair", "Volume">> >>
+\* column set of section s: d.alt = 0 one thermo_style for the whole log; 1 the style changes between runs to a set of
+\* another width (2 <-> 4 columns); 2 to a set of the same width with other quantities (headers differ, widths agree)
+ColOf(d, s) == IF d.alt = 0 \/ s % 2 = 1 THEN ColSets[d.cv]
+               ELSE IF d.alt = 1 THEN ColSets[3 - d.cv] ELSE ColSets[d.cv + 2]
 \* value in row r of section s, column j (column 1 is the integer step)
 LogVal(s, r, j) == IF j = 1 THEN NI((s - 1) * 1000 + (r - 1) * 100)
                    ELSE IF j = 3 THEN F(0 - (6250 + 17 * s + r))
@@ -255,21 +260,21 @@ AbsSec(s, nrows, cols) ==
 RowsOf(d, s) == ((d.rp + s) % 3) + 1
 RECURSIVE Body(_, _)
 Body(d, s) == IF s > d.nsec THEN << >>
-              ELSE RunIntro(d.v) \o SecLines(s, RowsOf(d, s), ColSets[d.cv]) \o <<LoopLine>> \o RunOutro(d.v) \o Body(d, s + 1)
+              ELSE RunIntro(d.v) \o SecLines(s, RowsOf(d, s), ColOf(d, s)) \o <<LoopLine>> \o RunOutro(d.v) \o Body(d, s + 1)
 \* tail: -1 complete log; 0..3 an unterminated section with that many rows;
 \*       4 cut inside the set-up of the next run (last line starts with a number)
 TailLines(d) ==
   IF d.tail = 0 - 1 THEN << Words(<<"Total", "wall", "time:", "0:00:01">>) >>
   ELSE IF d.tail = 4 THEN << Words(<<"read_data", "next.data">>), <<NI(4000), W("atoms")>> >>
-  ELSE RunIntro(d.v) \o SecLines(d.nsec + 1, d.tail, ColSets[d.cv])
+  ELSE RunIntro(d.v) \o SecLines(d.nsec + 1, d.tail, ColOf(d, d.nsec + 1))
 LogLines(d) == Pre(d.v) \o Body(d, 1) \o TailLines(d)
-LogDescs == { [nsec |-> ns, rp |-> rp, tail |-> tl, cv |-> cv, v |-> v] :
-                ns \in 0..3, rp \in 0..2, tl \in (0 - 1)..4, cv \in 1..2, v \in 1..2 }
+LogDescs == { [nsec |-> ns, rp |-> rp, tail |-> tl, cv |-> cv, v |-> v, alt |-> alt] :
+                ns \in 0..3, rp \in 0..2, tl \in (0 - 1)..4, cv \in 1..2, v \in 1..2, alt \in 0..2 }
 
 LogInit ==
   \E d \in LogDescs :
-    /\ (d.nsec + 4 * d.rp + 12 * (d.tail + 1) + d.cv + d.v) % NSHARDS = SHARD
-    /\ inp = [d |-> d, lines |-> LogLines(d), secs |-> [s \in 1..d.nsec |-> AbsSec(s, RowsOf(d, s), ColSets[d.cv])]]
+    /\ (d.nsec + 4 * d.rp + 12 * (d.tail + 1) + d.cv + d.v + 5 * d.alt) % NSHARDS = SHARD
+    /\ inp = [d |-> d, lines |-> LogLines(d), secs |-> [s \in 1..d.nsec |-> AbsSec(s, RowsOf(d, s), ColOf(d, s))]]
     /\ kind = "log" /\ par = 0 /\ cur = 0 /\ aux = 0 /\ hist = << >> /\ done = FALSE
 
 \* the scanner: one line per step
